@@ -287,7 +287,7 @@ func init() {
 	register(ruleModeGuard)
 	addProp(&PropSpec{
 		ID:          "C06",
-		Rules:       []string{"R-ENTRY", "R-PAIR-P", "R-PAIR-C", "R-EARLYEXIT", "R-STATUSFLOW", "R-COLLBLIND", "R-TWINRAISE", "R-FOUNDKEPT", "R-COLLGUARD", "R-VARSIDENT", "R-SCRATCHSTATUS"},
+		Rules:       []string{"R-ENTRY", "R-PAIR-P", "R-PAIR-C", "R-EARLYEXIT", "R-STATUSFLOW", "R-COLLBLIND", "R-TWINRAISE", "R-FOUNDKEPT", "R-COLLGUARD", "R-VARSIDENT", "R-SCRATCHSTATUS", "R-STATE-VERBOSE"},
 		Explanation: "Agreement of the entry points as sibling agreement: Query, First and Match provably obtain their list from the same internal call and differ only in a post-processing table that is matched case by case; Exists runs the same core with a nil collector, which is only legal where strict mode re-collects; an error can never be turned into 'not found' on the way up (pair coherence and propagation).",
 		Decided: []string{"R-ENTRY: shared adapter/core and argument identity; post-processing tables of Query/First/Exists/Match; ExistsOrMatch dispatch; nil collectors only where strict re-collects or strictness is refuted; decision table of the evaluation core (strict re-collection answers from the emptiness of the complete list, failures propagate); no entry point writes Executor state its siblings do not",
 			"R-PAIR-P / R-PAIR-C: error ⇒ failed at every return; no error lost at a call site"},
